@@ -37,7 +37,7 @@ RULE = (
 CLASSES = [
     "crash_before_open", "crash_after_truncate", "crash_mid_write", "crash_before_rename", "crash_after_rename",
     "torn_prefix", "multi_chunk", "buffered_flush_between_files", "cache_grow", "cache_shrink", "threads_off",
-    "reader_between_open_and_rename", "jobdoc", "projdoc", "cache", "migration", "stray_tmp_before_update", "interrupt", "bulk_update",
+    "reader_between_open_and_rename", "jobdoc", "projdoc", "cache", "migration", "stray_tmp_before_update", "interrupt", "bulk_update", "reading_session_beside_writer",
 ]
 ASSUMPTIONS = [
     "process death is modelled by os._exit before a Python-level fs call; no power loss, no un-fsynced rename reordering",
@@ -399,6 +399,12 @@ def run_case(case, ctx):
             newr = {f.replace(template, root, 1): v for f, v in new.items()}
             check_after(case, root, ids, oldr, newr, snap_before, f"KeyboardInterrupt at step {k} ({trace[k][1]}{'' if torn is None else f', {torn} bytes written'})", mms)
             shutil.rmtree(root, ignore_errors=True)
+    if case.get("session_reader") and case["target"] == "cache" and not ctx.out_of_time():
+        n_sess = session_reader_runs(case, ctx, template, ids, old, new, trace, mms)
+        evaluations += n_sess
+        counts["reading_session_placements"] = n_sess
+        cl.add("reading_session_beside_writer")
+        keys.extend(f"session{i}" for i in range(n_sess))
     # ---- reader placements -----------------------------------------------------
     if case.get("with_reader") and case["target"] != "migration" and not ctx.out_of_time():
         n_sched, n_between = reader_schedules(case, ctx, template, ids, old, new, mms)
@@ -442,6 +448,69 @@ def make_reader(case, root, ids):
         return ("ok", doc())
 
     return prepare, act
+
+
+def session_reader_runs(case, ctx, template, ids, old, new, trace, mms):
+    """A whole reading SESSION of another process (it looks at every job's state point, then at the cache file)
+    placed after each of the writer's mutating steps. The session only reads -- as far as the caller can tell --
+    so the writer completes, and what the session and a later reader find in the cache file is the old or the new
+    content."""
+    tfile = target_files(case, template, ids)[0]
+    nmut = sum(1 for t in trace if t[0] is not None)
+    runs = 0
+    for k in range(0, nmut + 1):
+        if ctx.out_of_time():
+            break
+        root = copy_tree(ctx, template)
+        import signac
+
+        def r_prepare(root=root):
+            return signac.Project(root)
+
+        def r_act(project, root=root):
+            hits = len(project.find_jobs({"bulk": {"$lt": 3}}))  # a query first: every job is a cache miss
+            n = sum(1 for j in project if j.statepoint() is not None)
+            f = os.path.join(root, CACHE_FILE)
+            try:
+                with gzip.open(f, "rb") as fh:
+                    return ("ok", json.loads(fh.read().decode()), n, hits)
+            except FileNotFoundError:
+                return ("absent", None, n, hits)
+
+        w = make_writer(case, root, ids)
+
+        def chooser(enabled, order, k=k):
+            done = sum(1 for (a, kind, path, mut) in order if a == 0 and mut and kind != "mark")
+            if 0 in enabled and done < k:
+                return 0
+            if 1 in enabled:
+                return 1
+            return enabled[0]
+
+        actors, order = fsshim.run_scheduled([w, (r_prepare, r_act)], root, chooser, max_steps=60000)
+        runs += 1
+        wres, rres = actors[0].result, actors[1].result
+        where = f"reading session placed after the writer's mutating step {k}/{nmut}"
+        if wres["exc"] is not None:
+            mms.append(Mismatch("writer_raises", f"{where}: update_cache() of the writer raised {wres['exc'][:2]}"))
+        if rres["exc"] is not None:
+            mms.append(Mismatch("reader_raises", f"{where}: the reading session raised {rres['exc'][:2]}"))
+        else:
+            got = rres["ret"]
+            seen = ("absent",) if got[0] == "absent" else ("ok", got[1])
+            if not any(same_content(seen, a) for a in (old[tfile], new[tfile])):
+                mms.append(Mismatch("reader_sees_torn", f"{where}: at its end the session finds {str(seen)[:80]} in the cache file: neither the old nor the new content"))
+        try:
+            with gzip.open(os.path.join(root, CACHE_FILE), "rb") as fh:
+                final = ("ok", json.loads(fh.read().decode()))
+        except FileNotFoundError:
+            final = ("absent",)
+        except Exception as e:
+            final = ("unparseable", f"{type(e).__name__}: {e}")
+        if final[0] == "unparseable" or not any(same_content(final, a) for a in (old[tfile], new[tfile])):
+            mms.append(Mismatch("torn_or_unparseable", f"{where}: afterwards the cache file is {str(final)[:100]}: neither the old nor the new content"))
+        shutil.rmtree(root, ignore_errors=True)
+    return runs
 
 
 def reader_schedules(case, ctx, template, ids, old, new, mms):
@@ -511,6 +580,7 @@ CONSTRUCTED = [
     {"target": "cache", "threads": True, "torn": [4], "reader": "raw", "with_reader": False, "old_jobs": 1, "cache_exists": False, "add": 1, "remove": 0},
     {"target": "cache", "threads": True, "torn": [], "reader": "raw", "with_reader": False, "old_jobs": 3, "cache_exists": True, "add": 0, "remove": 1, "bulk_add": 2001},
     {"target": "cache", "threads": True, "torn": [], "reader": "raw", "with_reader": True, "old_jobs": 2, "cache_exists": True, "add": 0, "remove": 1, "stray_tmp": True},
+    {"target": "cache", "threads": True, "torn": [], "reader": "raw", "with_reader": False, "old_jobs": 2, "cache_exists": True, "add": 0, "remove": 0, "bulk_add": 520, "session_reader": True},
     {"target": "cache", "threads": True, "torn": [6], "reader": "raw", "with_reader": False, "old_jobs": 0, "cache_exists": False, "add": 1, "remove": 0, "stray_tmp": True},
 ]
 
